@@ -197,8 +197,19 @@ def gen_model(r, *, budget=6000, max_T=4, force=None):
         r.shuffle(aargs)
         funcs.append(_fn(nm, aargs + ([p] if p else []), lincomb(aargs, p)))
         aux.append(nm)
+    # ---- "twin" auxiliary functions: ONE callable registered under two names (same arguments, same parameter name), as
+    #      a user would do for two identical components; each name has its own entry in params
+    twins = []
+    if "twin" in force:
+        targs = r.sample(uvars, k=min(len(uvars), r.randint(1, 2)))
+        r.shuffle(targs)
+        f0 = _fn("tw0", targs + ["kappa"], lincomb(targs, "kappa"))
+        f1 = dict(f0, name="tw1", same_as="tw0")
+        funcs.extend([f0, f1])
+        twins = ["tw0", "tw1"]
+        meta["twins"] = True
     # ---- utility: every state and choice enters (supported class), nonzero coefficients
-    uargs = uvars + ([aux[-1]] if aux else []) + ([aux[0]] if len(aux) > 1 and r.random() < 0.5 else [])
+    uargs = uvars + ([aux[-1]] if aux else []) + ([aux[0]] if len(aux) > 1 and r.random() < 0.5 else []) + twins
     if r.random() < 0.35 and not noperiod:
         uargs.append("_period")
     r.shuffle(uargs)
@@ -206,6 +217,8 @@ def gen_model(r, *, budget=6000, max_T=4, force=None):
     qc = [c for c in cchoices if c not in flat]
     quad = r.choice(qc) if qc and r.random() < 0.6 else None
     funcs.append(_fn("utility", uargs + ([p] if p else []), lincomb(uargs, p, quad)))
+    if "stacked" in force:
+        funcs[-1]["stacked"] = True     # see dsl.mkfunc: utility written with a reduction over a stacked vector
 
     # ---- filters
     filt_state_f1 = None
